@@ -73,7 +73,7 @@ Proof.
       rewrite IH; reflexivity.
 Qed.
 
-Lemma batch_dup_filter rs d : batch_dup rs = false -> (length (filter (fun r => f_did r =? d) rs) <= 1)%nat.
+Lemma batch_dup_filter rs (d : N) : batch_dup rs = false -> (length (filter (fun r => (f_did r =? d)%N) rs) <= 1)%nat.
 Proof.
   induction rs as [|r rs IH]; cbn; intros H; [lia|].
   apply orb_false_iff in H as [H1 H2]. specialize (IH H2).
@@ -88,14 +88,14 @@ Qed.
 
 Lemma certify_group_ok_shape chk s c k ty rs t s' :
   certify_group chk s c k ty rs t = inl s' ->
-  s' = s \/ (rs <> [] /\ existsb (hit c ty t (Some (map f_did rs))) (calibs s) = false /\
+  (rs = [] /\ s' = s) \/ (rs <> [] /\ existsb (hit c ty t (Some (map f_did rs))) (calibs s) = false /\
              (chk && batch_dup rs && negb (py_isEmpty t) = false) /\
              s' = set_calibs s (calibs s ++ new_rows c ty t rs)).
 Proof.
   unfold certify_group. destruct (lookup ty (dtypes s)) as [[|]|]; try discriminate.
   destruct (negb (is_calib k)); try discriminate.
   destruct (chk && batch_dup rs && negb (py_isEmpty t)) eqn:Ed; try discriminate.
-  destruct rs as [|r0 rs0] eqn:Ers; [intros H; inversion H; left; reflexivity|].
+  destruct rs as [|r0 rs0] eqn:Ers; [intros H; inversion H; left; split; reflexivity|].
   rewrite <- Ers in *.
   destruct (existsb (hit c ty t (Some (map f_did rs))) (calibs s)) eqn:Eh; [subst rs; discriminate|].
   destruct (forallb (fun r => memN (f_ds r) (dsets s)) rs); [|subst rs; discriminate].
@@ -107,7 +107,7 @@ Qed.
 Lemma certify_group_inv s c k ty rs t s' :
   Inv s -> wf t -> certify_group true s c k ty rs t = inl s' -> Inv s'.
 Proof.
-  intros [Hwf Hcnt] Ht H. apply certify_group_ok_shape in H as [->|(Hne & Hh & Hd & ->)]; [split; assumption|].
+  intros [Hwf Hcnt] Ht H. apply certify_group_ok_shape in H as [[_ ->]|(Hne & Hh & Hd & ->)]; [split; assumption|].
   split.
   - cbn. apply Forall_app. split; [exact Hwf|]. unfold new_rows. apply Forall_forall.
     intros r Hr. apply in_map_iff in Hr as (f & <- & _). exact Ht.
@@ -129,7 +129,7 @@ Proof.
       { unfold hit. rewrite Ek1, Ek2. cbn [andb selected].
         rewrite (overlaps_witness (r_ts r) t x); [| | exact Ht | apply memb_mem; exact Em | apply memb_mem; exact Hx].
         - cbn. apply memN_In. apply N.eqb_eq in Ek3. rewrite Ek3, <- Hd0. apply in_map. exact Hin.
-        - rewrite Forall_forall in Hwf. apply Hwf. exact Hr. }
+        - unfold rows_wf in Hwf. rewrite Forall_forall in Hwf. apply Hwf. exact Hr. }
       assert (existsb (hit c ty t (Some (map f_did rs))) (calibs s) = true) as Hex
         by (apply existsb_exists; exists r; split; assumption).
       rewrite Hex in Hh. discriminate. }
@@ -171,9 +171,9 @@ Qed.
 
 Lemma remove_inv s ds : Inv s -> Inv (fst (remove s ds)).
 Proof.
-  intros [Hwf Hcnt]. split; cbn.
-  - apply rows_wf_filter, Hwf.
-  - intros c ty d x. rewrite valid_at_va. cbn. rewrite va_remove.
+  intros [Hwf Hcnt]. split.
+  - cbn. apply rows_wf_filter, Hwf.
+  - intros c ty d x. rewrite valid_at_va. unfold remove. cbn [fst calibs]. rewrite va_remove.
     specialize (Hcnt c ty d x). rewrite valid_at_va in Hcnt.
     pose proof (length_filter_le (fun n => negb (n =? ds)) (va (calibs s) c ty d x)). lia.
 Qed.
@@ -192,6 +192,9 @@ Proof.
   all: repeat match goal with
        | |- context [if ?c then _ else _] => let E := fresh "E" in destruct c eqn:E; cbn [fst snd app flat_map] in *
        end; try reflexivity; try lia.
+  all: exfalso; repeat match goal with
+       | H : context [if ?c then _ else _] |- _ => let E := fresh "E" in destruct c eqn:E; cbn [fst snd] in H
+       end; lia.
 Qed.
 
 Lemma partition_perm {A B} (f : A -> list B) (g : A -> list A) (h : A -> bool) l :
@@ -231,11 +234,9 @@ Proof.
   destruct (memb x (r_ts r)) eqn:M1, (memb x t) eqn:M2; cbn [andb negb];
     try (destruct ((r_coll r =? c) && (r_ty r =? ty) && py_overlaps (r_ts r) t && selected sel (r_did r)),
                   ((r_coll r =? c) && (r_ty r =? ty) && selected sel (r_did r)); reflexivity).
-  - (* valid at x, x inside t: the row is selected exactly when the condition holds *)
-    rewrite (overlaps_witness (r_ts r) t x Hr Ht); [|apply memb_mem; assumption..].
-    destruct (r_coll r =? c), (r_ty r =? ty), (selected sel (r_did r)); reflexivity.
-  - destruct ((r_coll r =? c) && (r_ty r =? ty) && py_overlaps (r_ts r) t && selected sel (r_did r));
-      rewrite andb_false_r; reflexivity.
+  (* valid at x, x inside t: the row is selected exactly when the condition holds *)
+  rewrite (overlaps_witness (r_ts r) t x Hr Ht); [|apply memb_mem; assumption..].
+  destruct (r_coll r =? c), (r_ty r =? ty), (selected sel (r_did r)); reflexivity.
 Qed.
 
 Lemma dec_pointwise_perm c ty t sel l c' ty' d' x : rows_wf l -> wf t ->
@@ -379,14 +380,15 @@ Lemma certify_group_conflict_iff_p s c k ty rs t :
   (certify_group true s c k ty rs t = inr Conflict <-> conflict_sem s c ty rs t).
 Proof.
   intros Hty Hk Hwf Ht. unfold certify_group, conflict_sem. rewrite Hty, Hk. cbn [negb andb].
-  pose proof (nonempty_sem t Ht) as Hne. pose proof (hit_exists_sem s c ty rs t Hwf Ht) as Hh.
+  pose proof (nonempty_sem t Ht) as Hne.
   destruct (batch_dup rs) eqn:Eb; cbn [andb].
   - destruct (py_isEmpty t) eqn:Ee; cbn [negb].
     + (* empty timespan: nothing can overlap *)
       assert (Hno : forall x, ~ mem x t) by (intros x Hx; apply (isEmpty_spec_p t Ht) in Hx; [exact Hx|exact Ee]).
       destruct rs as [|r0 rs0]; [discriminate Eb|].
       destruct (existsb (hit c ty t (Some (map f_did (r0 :: rs0)))) (calibs s)) eqn:Ex.
-      * apply Hh in Ex as (r & f & x & _ & _ & _ & _ & _ & _ & Hx). exfalso. apply (Hno x Hx).
+      * apply (hit_exists_sem s c ty (r0 :: rs0) t Hwf Ht) in Ex as (r & f & x & _ & _ & _ & _ & _ & _ & Hx).
+        exfalso. apply (Hno x Hx).
       * split.
         -- destruct (forallb (fun r => memN (f_ds r) (dsets s)) (r0 :: rs0)); discriminate.
         -- intros [[_ (x & Hx)]|(r & f & x & _ & _ & _ & _ & _ & _ & Hx)]; exfalso; apply (Hno x Hx).
@@ -394,10 +396,11 @@ Proof.
   - destruct rs as [|r0 rs0].
     + split; [discriminate|]. intros [[H _]|(r & f & x & _ & [] & _)]. discriminate.
     + destruct (existsb (hit c ty t (Some (map f_did (r0 :: rs0)))) (calibs s)) eqn:Ex.
-      * split; [intros _|reflexivity]. right. apply Hh. reflexivity.
+      * split; [intros _|reflexivity]. right. apply (hit_exists_sem s c ty (r0 :: rs0) t Hwf Ht). exact Ex.
       * split.
         -- destruct (forallb (fun r => memN (f_ds r) (dsets s)) (r0 :: rs0)); discriminate.
-        -- intros [[H _]|H]; [discriminate|]. apply Hh in H. discriminate.
+        -- intros [[H _]|H]; [discriminate|]. apply (hit_exists_sem s c ty (r0 :: rs0) t Hwf Ht) in H.
+           rewrite Ex in H. discriminate.
 Qed.
 
 Lemma certify_refused_iff_p s c ty refs t :
@@ -426,14 +429,9 @@ Proof.
   - rewrite (group_single ty r refs Hall). cbn [certify_groups].
     destruct (certify_group true s c k ty (r :: refs) t) as [s1|e] eqn:E; [|discriminate].
     intros H. inversion H. subst s1.
-    apply certify_group_ok_shape in E as [->|(_ & _ & _ & ->)].
-    + (* impossible shape for a non-empty batch, but harmless *)
-      unfold certify_group in H. clear H.
-      exfalso. revert H1. intros _.
-      (* s' = s can only arise for an empty batch *)
-      admit_placeholder.
-    + rewrite !valid_at_va. cbn [calibs set_calibs]. rewrite va_app, va_new. reflexivity.
-Abort.
+    apply certify_group_ok_shape in E as [[E _]|(_ & _ & _ & ->)]; [discriminate E|].
+    rewrite !valid_at_va. cbn [calibs set_calibs]. rewrite va_app, va_new. reflexivity.
+Qed.
 
 (* ---------- lookups ---------- *)
 Lemma lookup_span_spec_p s c ty d q :
@@ -480,4 +478,57 @@ Proof.
   - repeat split; try discriminate.
     + intros H. inversion H. reflexivity.
     + intros H. inversion H. reflexivity.
+Qed.
+
+(* ---------- frame corollaries ---------- *)
+Lemma decertify_frame_p s c ty t sel s' c' ty' d' x :
+  Inv s -> wf t -> decertify s c ty t sel = (s', Ok) ->
+  (c' <> c \/ ty' <> ty \/ selected sel d' = false \/ ~ mem x t) ->
+  valid_at s' c' ty' d' x = valid_at s c' ty' d' x.
+Proof.
+  intros Hi Ht H Hc. rewrite (decertify_pointwise_p s c ty t sel s' c' ty' d' x Hi Ht H).
+  assert (dec_cond c ty t sel c' ty' d' x = false) as ->; [|reflexivity].
+  unfold dec_cond. destruct Hc as [Hc|[Hc|[Hc|Hc]]].
+  - apply N.eqb_neq in Hc. rewrite Hc. reflexivity.
+  - apply N.eqb_neq in Hc. rewrite Hc. apply andb_false_iff. left. apply andb_false_iff. left. apply andb_false_r.
+  - rewrite Hc. apply andb_false_iff. left. apply andb_false_r.
+  - destruct (memb x t) eqn:E; [apply memb_mem in E; contradiction|apply andb_false_r].
+Qed.
+
+Lemma decertify_clears_p s c ty t sel s' d' x :
+  Inv s -> wf t -> decertify s c ty t sel = (s', Ok) -> selected sel d' = true -> mem x t ->
+  valid_at s' c ty d' x = [].
+Proof.
+  intros Hi Ht H Hs Hx. rewrite (decertify_pointwise_p s c ty t sel s' c ty d' x Hi Ht H).
+  unfold dec_cond. rewrite !N.eqb_refl, Hs, (proj2 (memb_mem x t) Hx). reflexivity.
+Qed.
+
+Lemma decertify_ok_iff_p s c ty t sel :
+  snd (decertify s c ty t sel) = Ok <-> (lookup c (colls s) = Some KCalibration /\ lookup ty (dtypes s) = Some true).
+Proof.
+  unfold decertify. destruct (lookup c (colls s)) as [k|]; [|cbn; split; [discriminate|intros [H _]; discriminate]].
+  destruct (lookup ty (dtypes s)) as [[|]|]; destruct k; cbn; split; intros H;
+    try discriminate; try (destruct H as [H1 H2]; discriminate); try (split; reflexivity); reflexivity.
+Qed.
+
+Lemma remove_pointwise_p s ds c ty d x :
+  valid_at (fst (remove s ds)) c ty d x = filter (fun n => negb (n =? ds)) (valid_at s c ty d x).
+Proof. rewrite !valid_at_va. unfold remove. cbn [fst calibs]. apply va_remove. Qed.
+
+Lemma reachable_rows_wf_p s h : Inv s -> Forall wf_op h -> Forall (fun r => wf (r_ts r)) (calibs (run true s h)).
+Proof. intros Hi Hh. apply (run_inv h s Hi Hh). Qed.
+
+(* pairwise form of the invariant: two different rows of one key never share an instant *)
+Lemma inv_pairwise_p s : Inv s -> forall l1 r1 l2 r2 l3 x, calibs s = l1 ++ r1 :: l2 ++ r2 :: l3 ->
+  r_coll r1 = r_coll r2 -> r_ty r1 = r_ty r2 -> r_did r1 = r_did r2 -> mem x (r_ts r1) -> mem x (r_ts r2) -> False.
+Proof.
+  intros [_ Hcnt] l1 r1 l2 r2 l3 x E H1 H2 H3 M1 M2.
+  specialize (Hcnt (r_coll r1) (r_ty r1) (r_did r1) x). rewrite valid_at_va, E in Hcnt.
+  rewrite va_app in Hcnt. change (r1 :: l2 ++ r2 :: l3) with ([r1] ++ l2 ++ [r2] ++ l3) in Hcnt.
+  rewrite !va_app, !app_length in Hcnt.
+  assert (K1 : va [r1] (r_coll r1) (r_ty r1) (r_did r1) x = [r_ds r1]).
+  { unfold va, key_match. cbn. rewrite !N.eqb_refl, (proj2 (memb_mem _ _) M1). reflexivity. }
+  assert (K2 : va [r2] (r_coll r1) (r_ty r1) (r_did r1) x = [r_ds r2]).
+  { unfold va, key_match. cbn. rewrite H1, H2, H3, !N.eqb_refl, (proj2 (memb_mem _ _) M2). reflexivity. }
+  rewrite K1, K2 in Hcnt. cbn in Hcnt. lia.
 Qed.
